@@ -3,7 +3,9 @@ package engines
 import (
 	"bytes"
 	"fmt"
+	"hash/crc32"
 	"io"
+	"os"
 	"strings"
 
 	"github.com/spf13/afero"
@@ -64,10 +66,11 @@ func c17RunImpl(c corr.Case) []string {
 				}
 				var got bool
 				var err error
+				aw := c17Forms(st.Fs, crc32.ChecksumIEEE([]byte(line))%2 == 1)
 				if len(ns) == 1 {
-					got, err = afero.FileContainsBytes(st.Fs, name, ns[0])
+					got, err = aw.FileContainsBytes(name, ns[0])
 				} else {
-					got, err = afero.FileContainsAnyBytes(st.Fs, name, ns)
+					got, err = aw.FileContainsAnyBytes(name, ns)
 				}
 				if err != nil {
 					return "err:" + err.Error()
@@ -76,26 +79,33 @@ func c17RunImpl(c corr.Case) []string {
 			case "rt":
 				path := string(corr.UnHex(t[2]))
 				data := genBytes(atoi(t[3]), atoi(t[4]))
+				// every helper exists as a function and as a method of afero.Afero: half of the lines (by their hash) use the method
+				aw := c17Forms(st.Fs, crc32.ChecksumIEEE([]byte(line))%2 == 1)
 				switch t[1] {
 				case "writefile":
 					dir := path[:strings.LastIndex(path, "/")+1]
 					if err := st.Fs.MkdirAll(dir, 0o755); err != nil {
 						return "rt fail: mkdirall " + err.Error()
 					}
-					if err := afero.WriteFile(st.Fs, path, data, 0o644); err != nil {
+					if err := aw.WriteFile(path, data, 0o644); err != nil {
 						return "rt fail: " + err.Error()
 					}
 				case "writereader":
-					if err := afero.WriteReader(st.Fs, path, bytes.NewReader(data)); err != nil {
+					if err := aw.WriteReader(path, bytes.NewReader(data)); err != nil {
 						return "rt fail: " + err.Error()
 					}
-				case "writereader-plain", "safewrite-plain":
+				case "writereader-plain", "safewrite-plain", "writereader-eofdata", "safewrite-eofdata":
 					// a reader without WriteTo: io.Copy goes through its own 32 KiB buffer, which it reuses for every piece
+					// (-eofdata: and the reader returns its last bytes together with io.EOF, as io.Reader allows)
+					var rd io.Reader = plainReader{bytes.NewReader(data)}
+					if strings.HasSuffix(t[1], "-eofdata") {
+						rd = &eofDataReader{data: data}
+					}
 					var err error
-					if t[1] == "writereader-plain" {
-						err = afero.WriteReader(st.Fs, path, plainReader{bytes.NewReader(data)})
+					if strings.HasPrefix(t[1], "writereader") {
+						err = aw.WriteReader(path, rd)
 					} else {
-						err = afero.SafeWriteReader(st.Fs, path, plainReader{bytes.NewReader(data)})
+						err = aw.SafeWriteReader(path, rd)
 					}
 					if err != nil {
 						return "rt fail: " + err.Error()
@@ -106,15 +116,15 @@ func c17RunImpl(c corr.Case) []string {
 					io.CopyN(io.Discard, rd, int64(1+atoi(t[4])%9))
 					var err error
 					if t[1] == "writereader-partial" {
-						err = afero.WriteReader(st.Fs, path, rd)
+						err = aw.WriteReader(path, rd)
 					} else {
-						err = afero.SafeWriteReader(st.Fs, path, rd)
+						err = aw.SafeWriteReader(path, rd)
 					}
 					if err != nil {
 						return "rt fail: " + err.Error()
 					}
 				case "safewrite":
-					if err := afero.SafeWriteReader(st.Fs, path, bytes.NewReader(data)); err != nil {
+					if err := aw.SafeWriteReader(path, bytes.NewReader(data)); err != nil {
 						return "rt fail: " + err.Error()
 					}
 				case "writefile-over", "writereader-over":
@@ -129,9 +139,9 @@ func c17RunImpl(c corr.Case) []string {
 					}
 					var err error
 					if t[1] == "writefile-over" {
-						err = afero.WriteFile(st.Fs, path, data, 0o644)
+						err = aw.WriteFile(path, data, 0o644)
 					} else {
-						err = afero.WriteReader(st.Fs, path, bytes.NewReader(data))
+						err = aw.WriteReader(path, bytes.NewReader(data))
 					}
 					if err != nil {
 						return "rt fail: " + err.Error()
@@ -141,12 +151,12 @@ func c17RunImpl(c corr.Case) []string {
 					if err := afero.WriteReader(st.Fs, path, bytes.NewReader(old)); err != nil {
 						return "rt fail: setup " + err.Error()
 					}
-					if err := afero.SafeWriteReader(st.Fs, path, bytes.NewReader(data)); err == nil {
+					if err := aw.SafeWriteReader(path, bytes.NewReader(data)); err == nil {
 						return "rt fail: SafeWriteReader overwrote an existing file without an error"
 					}
 					data = old
 				}
-				got, err := afero.ReadFile(st.Fs, path)
+				got, err := aw.ReadFile(path)
 				if err != nil {
 					return "rt fail: readfile " + err.Error()
 				}
@@ -166,6 +176,46 @@ func c17RunImpl(c corr.Case) []string {
 		}))
 	}
 	return out
+}
+
+// c17Helpers: the util.go / ioutil.go helpers in one of their two forms
+type c17Helpers struct {
+	WriteFile            func(string, []byte, os.FileMode) error
+	WriteReader          func(string, io.Reader) error
+	SafeWriteReader      func(string, io.Reader) error
+	ReadFile             func(string) ([]byte, error)
+	FileContainsBytes    func(string, []byte) (bool, error)
+	FileContainsAnyBytes func(string, [][]byte) (bool, error)
+}
+
+func c17Forms(fs afero.Fs, method bool) c17Helpers {
+	if method {
+		a := afero.Afero{Fs: fs}
+		return c17Helpers{a.WriteFile, a.WriteReader, a.SafeWriteReader, a.ReadFile, a.FileContainsBytes, a.FileContainsAnyBytes}
+	}
+	return c17Helpers{
+		func(p string, d []byte, m os.FileMode) error { return afero.WriteFile(fs, p, d, m) },
+		func(p string, r io.Reader) error { return afero.WriteReader(fs, p, r) },
+		func(p string, r io.Reader) error { return afero.SafeWriteReader(fs, p, r) },
+		func(p string) ([]byte, error) { return afero.ReadFile(fs, p) },
+		func(p string, b []byte) (bool, error) { return afero.FileContainsBytes(fs, p, b) },
+		func(p string, bs [][]byte) (bool, error) { return afero.FileContainsAnyBytes(fs, p, bs) },
+	}
+}
+
+// eofDataReader returns its last bytes together with io.EOF (and nothing but Read)
+type eofDataReader struct {
+	data []byte
+	off  int
+}
+
+func (r *eofDataReader) Read(p []byte) (int, error) {
+	n := copy(p, r.data[r.off:])
+	r.off += n
+	if r.off == len(r.data) {
+		return n, io.EOF
+	}
+	return n, nil
 }
 
 // c17Content expands a contains / containsgen line into (content, needle hex tokens)
@@ -455,7 +505,7 @@ func c17Random(r *corr.Rand, tier string) []corr.Case {
 			}
 			lines = append(lines, "contains "+corr.Hex(content)+args)
 		}
-		kinds := []string{"writefile", "writereader", "safewrite", "safeexisting", "writefile-over", "writereader-over", "writereader-partial", "safewrite-partial", "writereader-plain", "safewrite-plain"}
+		kinds := []string{"writefile", "writereader", "safewrite", "safeexisting", "writefile-over", "writereader-over", "writereader-partial", "safewrite-partial", "writereader-plain", "safewrite-plain", "writereader-eofdata", "safewrite-eofdata"}
 		for k := 0; k < 2; k++ {
 			depth := 1 + rr.Intn(3)
 			p := ""
@@ -484,6 +534,10 @@ func c17Corpus() []corr.Case {
 		mk("case mem", "rt safeexisting "+corr.HexS("keep.txt")+" 40 1", "rt writereader "+corr.HexS("bare.bin")+" 9 2", "rt safewrite "+corr.HexS("bare2.bin")+" 9 3",
 			"rt writereader-plain 2f612f71 32769 4", "rt safewrite-plain 2f612f72 100000 5", "rt writereader-plain 2f612f73 5 6"),
 		mk("case os", "rt safeexisting "+corr.HexS("keep.txt")+" 40 1", "rt writereader-plain 2f612f71 70000 4"),
+		// a reader that hands its last bytes out together with io.EOF
+		mk("case mem", "rt writereader-eofdata 2f612f71 10 4", "rt safewrite-eofdata 2f612f72 513 5", "rt writereader-eofdata 2f612f73 40000 6", "rt safewrite-eofdata 2f612f74 1 7", "rt writereader-eofdata 2f612f75 0 8"),
+		// the existing file survives SafeWriteReader in both forms of the helper (function, method of afero.Afero)
+		mk("case mem", "rt safeexisting 2f612f71 40 1", "rt safeexisting 2f612f72 40 2", "rt safeexisting 2f612f73 40 3", "rt safeexisting 2f612f74 40 4", "rt safeexisting 2f612f75 41 5", "rt safeexisting 2f612f76 42 6"),
 		mk("case cow", "rt safeexisting "+corr.HexS("keep.txt")+" 40 1", "rt safewrite-plain 2f612f72 40000 5"),
 		mk("case mem", "rt writereader-partial 2f612f70 40 3", "rt safewrite-partial 2f612f71 0 4", "rt writereader-partial 2f612f72 40000 8"),
 		mk("case cow", "rt writereader-partial 2f612f70 40 3", "rt safewrite-partial 2f612f71 9 4"),
